@@ -8,10 +8,11 @@ from collections import OrderedDict
 
 from .. import coqbuild, irtools as T
 from ..common import GLOBAL_TRUSTED_BASE
+from .. import sqltie
 from ..model import call_many
 from ..pool import guarded, run_cases
 
-THEOREMS = ["C05_one_pk", "C05_examples", "C05_variants_share_the_column_source"]
+THEOREMS = ["C05_one_pk", "C05_examples", "C05_variants_share_the_column_source", "C05_column_roundtrip", "C05_column_pk_marker", "C05_column_default", "C05_column_optional_none", "C05_column_refuted"]
 VARIANTS = ("sqlalchemy", "sqlalchemy_table", "sqlalchemy_hybrid")
 STYLES = ("rest", "google", "numpydoc")
 COLNAMES = ["size", "label", "active", "ratio", "note", "count", "dataset_name", "user_id", "id", "id_code", "title", "weight", "_rev", "_hidden"]
@@ -195,9 +196,11 @@ def run(ctx):
     for cls, det, ir in items:
         ctx.item(cls, {"stage": "emit -> source -> parse of the three SQLAlchemy variants", "clause": cls, "input": T.jsonable(ir) if ir else None,
                        "detail": det})
+    n_cols, col_bad = sqltie.compare([sqltie.gen(ctx.rng) for _ in range(600 if ctx.quick else 20000)])
+    corr += col_bad[:3]
     if not ctx.violations:
         if corr:
-            ctx.violation({"stage": "correspondence: Model/SqlPk.v ensure_pk vs ensure_has_primary_key", "detail": corr[:3],
+            ctx.violation({"stage": "correspondence: Model/SqlPk.v ensure_pk vs ensure_has_primary_key; Model/SqlCol.v vs the column emitter / parser", "detail": corr[:3],
                            "n_disagreements": len(corr)}, no_input=True)
         elif not status["ok"]:
             ctx.violation({"stage": "proof", "theorem": status.get("failing_theorem"),
@@ -212,7 +215,7 @@ def run(ctx):
         "evaluations": agg["emissions"], "distinct_nontrivial": agg["n"],
         "rule": "SQL-representable IRs (int/float/str/bool/dict, Optional, Literal; 0..1 [PK] marker, [FK(..)] markers, candidate key names "
                 "such as dataset_name/user_id/id) x 3 variants x 3 docstring styles x force_pk_id",
-        "interfaces": agg["n"], "emissions_parsed_back": agg["emissions"], "model_disagreements": len(corr),
+        "interfaces": agg["n"], "emissions_parsed_back": agg["emissions"], "model_disagreements": len(corr), "columns_compared_with_model": n_cols,
         "traces_validated_against_impl": agg["n"] * 2,
         "samples": [T.jsonable(irs[0])],
         "build": {k: status[k] for k in ("build_s", "forbidden")},
